@@ -1,6 +1,7 @@
 package main
 
 import (
+	"encoding/binary"
 	"encoding/json"
 	"fmt"
 	"reflect"
@@ -9,6 +10,7 @@ import (
 	"time"
 
 	jwt "github.com/nats-io/jwt/v2"
+	v1 "github.com/nats-io/jwt/v2/v1compat"
 	"verifharness/schema"
 )
 
@@ -185,6 +187,7 @@ func runC13(c *Ctx) {
 		// user and activation claims: the issuer account names nobody, the very account whose key signs, or another
 		// account; some builds were encoded before (and carry that encoding's issuer), some come back from a token
 		otherAcct := kr.by["operator"].pub
+		otherAcct0 := newSigner("account").pub
 		buildUA := func() (*jwt.UserClaims, *jwt.ActivationClaims) {
 			uc := jwt.NewUserClaims(kr.by["user"].pub)
 			uc.IssuerAccount = []string{"", acctKp.pub, otherAcct, acctKp.pub}[n%4]
@@ -219,14 +222,36 @@ func runC13(c *Ctx) {
 			}
 			return uc, act
 		}
+		// an account that comes out of the MIGRATION of a version-1 token (it still reports version 1 until it is encoded):
+		// service imports delivered on another subject (the deprecated To), stream imports, exports - encoded again and
+		// again it gives one token, the same as a freshly migrated copy gives
+		buildMig := func() *jwt.AccountClaims {
+			x := v1.NewAccountClaims(acctKp.pub)
+			x.Imports.Add(&v1.Import{Subject: "a.requests", To: "z.remote.service", Account: otherAcct0, Type: v1.Service},
+				&v1.Import{Subject: "m.events", Account: otherAcct0, Type: v1.Stream},
+				&v1.Import{Subject: "b.requests", To: "c.local", Account: otherAcct0, Type: v1.Service},
+				&v1.Import{Subject: "zz.last", To: "aa.first", Account: otherAcct0, Type: v1.Stream})
+			x.Exports.Add(&v1.Export{Subject: "y.out", Type: v1.Stream}, &v1.Export{Subject: "b.svc", Type: v1.Service})
+			x.Name, x.Expires, x.Audience = fmt.Sprintf("content %d", n), 4102444800+int64(n), "aud"
+			t1, err := x.Encode(acctKp.kp)
+			if err != nil {
+				panic(err)
+			}
+			d, err := jwt.DecodeAccountClaims(t1)
+			if err != nil {
+				panic(err)
+			}
+			return d
+		}
 		tokens := map[string][]string{}
 		iats := map[string]int64{}
 		for o := 0; o < orders; o++ {
 			ac, gc := build()
 			oc := buildOp()
 			uc, act := buildUA()
+			mig := buildMig()
 			for r := 0; r < repeats; r++ {
-				for name, cl := range map[string]jwt.Claims{"account": ac, "generic": gc, "operator": oc, "user": uc, "activation": act} {
+				for name, cl := range map[string]jwt.Claims{"account": ac, "generic": gc, "operator": oc, "user": uc, "activation": act, "migrated account": mig} {
 					kp := acctKp.kp
 					if name == "operator" {
 						kp = opKp.kp
@@ -475,6 +500,11 @@ func runC14(c *Ctx) {
 	for _, r := range allRoles {
 		roleKeys[r] = kr.by[r].pub
 	}
+	// keys whose prefix byte carries its role in the upper five bits and something in the lower three: the key predicates
+	// the library uses everywhere (nkeys.IsValidPublicAccountKey / ...UserKey) read the upper five bits only - such keys
+	// are account / user keys for Encode and Validate, and so they are here
+	roleKeys["account (low bits of the prefix byte set)"] = relabel(kr.by["account"].pub, 0|3)
+	roleKeys["user (low bits of the prefix byte set)"] = relabel(kr.by["user"].pub, 20<<3|5)
 	durs := []time.Duration{0, time.Hour, -time.Hour, 1, 999999999, 90 * 24 * time.Hour}
 	for _, sr := range []string{"operator", "account", "user", "server", "cluster"} {
 		for ar, acct := range roleKeys {
@@ -495,13 +525,20 @@ func runC14(c *Ctx) {
 						tags = []string{"a", "B", "a"}
 					}
 					lo := time.Now().UnixNano()
+					tagsBefore := append([]string(nil), tags...)
+					if tags != nil && c.Rng.Intn(2) == 0 {
+						tags = append(make([]string, 0, 8), tags...) // (with spare capacity behind it)
+					}
 					tok, err := jwt.IssueUserJWT(kr.by[sr].kp, acct, user, name, d, tags...)
 					hi := time.Now().UnixNano()
+					if strings.Join(tags, "\x00") != strings.Join(tagsBefore, "\x00") {
+						c.violation("C14: IssueUserJWT rewrote the caller's tag list", map[string]interface{}{"tags_before": tagsBefore, "tags_after": tags})
+					}
 					ok := err == nil
 					c.sum.Evaluations++
 					c.sum.ImplChecks++
 					inp := map[string]interface{}{"signer_role": sr, "account_role": ar, "user_role": ur, "name": name, "duration": int64(d), "tags": tags, "ok": ok}
-					wantOK := sr == "account" && ar == "account" && ur == "user"
+					wantOK := sr == "account" && strings.HasPrefix(ar, "account") && strings.HasPrefix(ur, "user")
 					if ok != wantOK {
 						c.violation("C14: IssueUserJWT succeeds / fails against the role rule", inp)
 					}
@@ -540,8 +577,7 @@ func runC14(c *Ctx) {
 						uc.Issuer, uc.IssuedAt, uc.ID, uc.Type, uc.Version = "", 0, "", "", 0
 						decTerm = emu.Val(tyu, elemu(uc))
 					}
-					r1, _ := ownRole(acct)
-					r2, _ := ownRole(user)
+					r1, r2 := subjectRole(acct), subjectRole(user)
 					tagsTerm := "(VList None)"
 					if tags != nil {
 						tagsTerm = emu.Val(schemaBuilder.Of(reflect.TypeOf(jwt.TagList{})), reflect.ValueOf(jwt.TagList(tags)))
@@ -574,4 +610,31 @@ func floorDiv(a, b int64) int64 {
 		q--
 	}
 	return q
+}
+
+// subjectRole: the role of a key as the per-role predicates of nkeys judge it (the upper five bits of the prefix byte)
+func subjectRole(pub string) string {
+	raw, err := b32.DecodeString(pub)
+	if err != nil || len(raw) < 4 {
+		return "none"
+	}
+	body, sum := raw[:len(raw)-2], binary.LittleEndian.Uint16(raw[len(raw)-2:])
+	if crc16(body) != sum {
+		return "none"
+	}
+	switch body[0] & 248 {
+	case 14 << 3:
+		return "operator"
+	case 0:
+		return "account"
+	case 20 << 3:
+		return "user"
+	case 13 << 3:
+		return "server"
+	case 2 << 3:
+		return "cluster"
+	case 23 << 3:
+		return "curve"
+	}
+	return "none"
 }
